@@ -267,6 +267,65 @@ def g_verify_coord(tree):
     raise Shape("verify_signature: coordinate_size")
 
 
+
+SP_SRC = "spsdk/crypto/signature_provider.py"
+UT_SRC = "spsdk/crypto/utils.py"
+
+
+def g_key_len_curve(tree, curves):
+    """module-level get_ecc_curve(key_length): chain of `if test: return EccCurve.X` then raise."""
+    fn = None
+    for st in tree.body:
+        if isinstance(st, ast.FunctionDef) and st.name == "get_ecc_curve":
+            fn = st
+    if fn is None:
+        raise Shape("get_ecc_curve (module level) not found")
+    byname = dict(curves)
+    lines = []
+    for st in body_wo_doc(fn):
+        if isinstance(st, ast.If) and not st.orelse and len(st.body) == 1 and isinstance(st.body[0], ast.Return):
+            d = _dotted(st.body[0].value)
+            if d is None or not d.startswith("EccCurve.") or d.split(".", 1)[1] not in byname:
+                raise Shape("get_ecc_curve return value")
+            lines.append(f'if {tr(st.test, {"key_length": "key_length"})} then some "{byname[d.split(".", 1)[1]]}" else')
+        elif isinstance(st, ast.Raise):
+            break
+        else:
+            raise Shape("get_ecc_curve statement")
+    if not lines:
+        raise Shape("get_ecc_curve: no tests")
+    return "\n  ".join(lines + ["none"])
+
+
+def g_hash_from_sig_size(tree):
+    fn = find(tree, "get_hash_type_from_signature_size")
+    out = []
+    for st in body_wo_doc(fn):
+        if isinstance(st, ast.If) and isinstance(st.test, ast.Compare) and len(st.test.ops) == 1 and isinstance(st.test.ops[0], ast.Eq) \
+                and isinstance(st.test.comparators[0], ast.Constant) and isinstance(st.body[0], ast.Return):
+            d = _dotted(st.body[0].value)
+            if d is None or not d.startswith("EnumHashAlgorithm."):
+                raise Shape("get_hash_type_from_signature_size value")
+            out.append((int(st.test.comparators[0].value), d.split(".", 1)[1].lower()))
+    if not out:
+        raise Shape("get_hash_type_from_signature_size")
+    return out
+
+
+def g_str_list(tree, cls, name):
+    v = class_assign(tree, cls, name)
+    if not isinstance(v, (ast.List, ast.Tuple)) or not all(isinstance(x, ast.Constant) and isinstance(x.value, str) for x in v.elts):
+        raise Shape(f"{cls}.{name}")
+    return [x.value for x in v.elts]
+
+
+def g_init_params(tree, cls):
+    """(named parameters of __init__ without self, has **kwargs)"""
+    fn = find(tree, cls + ".__init__")
+    a = fn.args
+    return [x.arg for x in a.posonlyargs + a.args + a.kwonlyargs if x.arg != "self"], a.kwarg is not None, (a.kwarg.arg if a.kwarg else "")
+
+
 PINNED = {
     "curves": [("SECP256R1", "secp256r1"), ("SECP384R1", "secp384r1"), ("SECP521R1", "secp521r1")],
     "coordlens": [("secp256r1", 32), ("secp384r1", 48), ("secp521r1", 66)],
@@ -283,6 +342,15 @@ PINNED = {
     "coordinate_size": "((key_size + 7) / 8)",
     "signature_size": "(coordinate_size * (2 : Nat))",
     "verify_coord": "((key_size + 7) / 8)",
+    "rsa_signature_size": "(key_size / (8 : Nat))",
+    "key_len_curve": "if ((decide (key_length ≤ (32 : Nat))) || (decide (key_length = (64 : Nat)))) then some \"secp256r1\" else\n  "
+                     "if ((decide (key_length ≤ (48 : Nat))) || (decide (key_length = (96 : Nat)))) then some \"secp384r1\" else\n  "
+                     "if (decide (key_length ≤ (66 : Nat))) then some \"secp521r1\" else\n  none",
+    "hash_from_sig_size": [(64, "sha256"), (96, "sha384"), (132, "sha512")],
+    "sp_reserved": ["type", "identifier", "search_paths", "pss_padding"],
+    "proxy_reserved": ["type", "search_paths", "data"],
+    "plainfile_init": (["file_path", "password", "hash_alg", "search_paths"], True, "kwargs"),
+    "proxy_init": (["host", "port", "url_prefix", "timeout", "prehash"], True, "kwargs"),
 }
 
 
@@ -315,6 +383,29 @@ def gen_KeysTables() -> None:
     signature_size = get("signature_size", lambda: g_ret_expr(tree, "KeyEccCommon.signature_size", {"self.coordinate_size": "coordinate_size"}))
     verify_coord = get("verify_coord", lambda: g_verify_coord(tree))
 
+    rsa_signature_size = get("rsa_signature_size", lambda: g_ret_expr(tree, "PrivateKeyRsa.signature_size", {"self.key.key_size": "key_size"}))
+    key_len_curve = get("key_len_curve", lambda: g_key_len_curve(tree, curves))
+    try:
+        sp_tree, ut_tree = parse(SP_SRC), parse(UT_SRC)
+    except (OSError, SyntaxError) as exc:
+        sp_tree = ut_tree = None
+        meta["fallback"]["signature_provider/utils"] = f"unreadable: {exc}"
+
+    def get2(key, fn, t):
+        if t is None:
+            return PINNED[key]
+        try:
+            return fn()
+        except Shape as exc:
+            meta["fallback"][key] = str(exc)
+            return PINNED[key]
+
+    hash_from_sig_size = get2("hash_from_sig_size", lambda: g_hash_from_sig_size(ut_tree), ut_tree)
+    sp_reserved = get2("sp_reserved", lambda: g_str_list(sp_tree, "SignatureProvider", "reserved_keys"), sp_tree)
+    proxy_reserved = get2("proxy_reserved", lambda: g_str_list(sp_tree, "HttpProxySP", "reserved_keys"), sp_tree)
+    plainfile_init = get2("plainfile_init", lambda: g_init_params(sp_tree, "PlainFileSP"), sp_tree)
+    proxy_init = get2("proxy_init", lambda: g_init_params(sp_tree, "HttpProxySP"), sp_tree)
+
     def strlist(xs):
         return "[" + ", ".join('"%s"' % x for x in xs) + "]"
 
@@ -343,6 +434,21 @@ def gen_KeysTables() -> None:
          f"def signatureSize (coordinate_size : Nat) : Nat := {signature_size}", "",
          "/-- `PublicKeyEcc.verify_signature`: `coordinate_size = …` -/",
          f"def verifyCoordinateSize (key_size : Nat) : Nat := {verify_coord}", "",
+         "/-- `PrivateKeyRsa.signature_size` (also `PublicKeyRsa.signature_size`) -/",
+         f"def rsaSignatureSize (key_size : Nat) : Nat := {rsa_signature_size}", "",
+         "/-- module-level `get_ecc_curve(key_length)` (used by nxpcrypto `reconstruct_key`): curve value or `none` = SPSDKError -/",
+         f"def keyLenCurve (key_length : Nat) : Option String :=\n  {key_len_curve}", "",
+         "/-- `utils.get_hash_type_from_signature_size` -/",
+         "def hashFromSigSize : List (Nat × String) := [" + ", ".join(f'({k}, "{v}")' for k, v in hash_from_sig_size) + "]", "",
+         "/-- `SignatureProvider.reserved_keys` / `HttpProxySP.reserved_keys` -/",
+         f"def spReservedKeys : List String := {strlist(sp_reserved)}",
+         f"def proxyReservedKeys : List String := {strlist(proxy_reserved)}", "",
+         "/-- named parameters of `PlainFileSP.__init__` / `HttpProxySP.__init__` (without self), whether `**kwargs` exists and its name -/",
+         f"def plainFileInitParams : List String := {strlist(plainfile_init[0])}",
+         f"def plainFileHasKwargs : Bool := {'true' if plainfile_init[1] else 'false'}",
+         f"def plainFileKwargsName : String := \"{plainfile_init[2]}\"",
+         f"def proxyInitParams : List String := {strlist(proxy_init[0])}",
+         f"def proxyKwargsName : String := \"{proxy_init[2]}\"", "",
          "end SpsdkVerif.Generated.KeysTables", ""]
     meta["values"] = {"curves": curves, "coordinate_lengths": coordlens, "rsa_key_sizes": rsa_sizes, "ecc_default_hash": default_hash}
     emit("KeysTables", "\n".join(L), meta)
